@@ -77,8 +77,13 @@ def base_element(tag, shape, A):
         return E(tag, T('roID', c), E('element_target', T('storyID', 'S')),
                  E('element_source', T('storyID', 'A')), operation='MOVE')
     if shape == 'rich':
-        return E(tag, T('roID', c), T('storyID', c), E('story', T('storyID', 'S'), T('p', c)),
-                 E('roElementAction', T('roID', 'decoy')))   # nested decoy: only direct children count
+        # nested decoys named like message elements (also ones that come EARLIER in the class table): only the
+        # direct children of <mos> decide
+        return E(tag, T('roID', c), T('storyID', c),
+                 E('story', T('storyID', 'S'), T('p', c),
+                   E('mosExternalMetadata', E('mosPayload', E('roCreate', T('roID', 'deep')), E('roStorySend', T('roID', 'deep')),
+                                              E('roDelete', T('roID', 'deep'))))),
+                 E('roElementAction', T('roID', 'decoy')))
     return E(tag, T('roID', c))
 
 
@@ -163,6 +168,41 @@ DOCS = {
                        '</roElementAction></mos>',
     'roDelete': '<mos><messageID>5</messageID><roDelete><roID>r</roID></roDelete></mos>',
 }
+
+
+BAD_DOCS = [
+    ('space-before-declaration', ' \n<?xml version="1.0" encoding="UTF-8"?><mos><messageID>1</messageID><roDelete><roID>r</roID></roDelete></mos>'),
+    ('text-after-root', '<mos><messageID>1</messageID><roDelete><roID>r</roID></roDelete></mos>trailing'),
+    ('two-roots', '<mos><messageID>1</messageID><roDelete><roID>r</roID></roDelete></mos><mos/>'),
+    ('empty', ''),
+    ('only-whitespace', '  \n'),
+    ('unclosed', '<mos><messageID>1</messageID><roDelete><roID>r</roDelete></mos>'),
+]
+
+
+def bad_sources_cell(P, A):
+    """Malformed text raises MosInvalidXML from every entry point alike (str, bytes, file)."""
+    import os
+    import tempfile
+    name, text = BAD_DOCS[A['i']]
+    tmp = os.path.join(tempfile.gettempdir(), 'vbad_%d' % os.getpid())
+    os.makedirs(tmp, exist_ok=True)
+    path = os.path.join(tmp, name + '.xml')
+    with open(path, 'wb') as f:
+        f.write(text.encode('utf-8'))
+    res = {'str': B.call(mt.MosFile.from_string, text), 'bytes': B.call(mt.MosFile.from_string, text.encode('utf-8')),
+           'file': B.call(mt.MosFile.from_file, path)}
+    os.remove(path)
+    B.hit()
+    sig = None
+    for k, o in res.items():
+        if not (o.raised and type(o.exc) is MosInvalidXML):
+            sig = '%s-%s-instead-of-MosInvalidXML' % (k, type(o.exc).__name__ if o.raised else type(o.result).__name__)
+            break
+    if B.Ctx.replay:
+        B.note(sig=sig, observed={k: (B.conc(o.exc) if o.raised else type(o.result).__name__) for k, o in res.items()},
+               expected='MosInvalidXML from every source', document=name)
+    return sig is None
 
 
 def truncation_cell(P, A):
